@@ -90,31 +90,33 @@ theorem acceptedPrefixFrom_eq_self {s : FSA V L} {v : V} {w : List L} (h : (s.fo
   have h2 := acceptedPrefixFrom_longest s v w w (List.prefix_refl w) h
   exact h1.eq_of_length_le h2
 
-theorem rejectedPrefixFrom_of_accepted {s : FSA V L} {v : V} {w : List L} (h : (s.follow v w).isSome) :
-    s.rejectedPrefixFrom v w = w := by
+theorem rejectedPrefixFrom_eq_none_iff (s : FSA V L) (v : V) (w : List L) :
+    s.rejectedPrefixFrom v w = none ↔ (s.follow v w).isSome := by
   induction w generalizing v with
   | nil => simp [rejectedPrefixFrom]
   | cons l w ih =>
-    rw [follow_cons] at h
+    rw [follow_cons]
     simp only [rejectedPrefixFrom]
     cases hs : s.step v l with
-    | none => simp [hs] at h
-    | some v' => simp only [hs, Option.bind_some] at h; simp [ih h]
+    | none => simp
+    | some v' => simp [ih v']
 
-theorem rejectedPrefixFrom_of_rejected {s : FSA V L} {v : V} {w : List L} (h : s.follow v w = none) :
-    ∃ l, s.rejectedPrefixFrom v w = s.acceptedPrefixFrom v w ++ [l] ∧
-      s.rejectedPrefixFrom v w <+: w ∧ s.follow v (s.rejectedPrefixFrom v w) = none := by
-  induction w generalizing v with
-  | nil => simp at h
+theorem rejectedPrefixFrom_of_rejected {s : FSA V L} {v : V} {w r : List L}
+    (h : s.rejectedPrefixFrom v w = some r) :
+    (∃ l, r = s.acceptedPrefixFrom v w ++ [l]) ∧ r <+: w ∧ s.follow v r = none := by
+  induction w generalizing v r with
+  | nil => simp [rejectedPrefixFrom] at h
   | cons l w ih =>
-    rw [follow_cons] at h
-    simp only [rejectedPrefixFrom, acceptedPrefixFrom]
+    simp only [rejectedPrefixFrom, acceptedPrefixFrom] at h ⊢
     cases hs : s.step v l with
-    | none => exact ⟨l, by simp, by simp, by simp [follow_cons, hs]⟩
+    | none =>
+      simp only [hs, Option.some.injEq] at h; subst h
+      exact ⟨⟨l, by simp⟩, by simp, by simp [follow_cons, hs]⟩
     | some v' =>
-      simp only [hs, Option.bind_some] at h
-      obtain ⟨l', e, hp, hr⟩ := ih h
-      exact ⟨l', by simp [e], by simpa using hp, by simpa [follow_cons, hs] using hr⟩
+      simp only [hs, Option.map_eq_some_iff] at h
+      obtain ⟨r', hr', rfl⟩ := h
+      obtain ⟨⟨l', e⟩, hp, hrj⟩ := ih hr'
+      exact ⟨⟨l', by simp [e]⟩, by simpa using hp, by simpa [follow_cons, hs] using hrj⟩
 
 /-! ### enumeration -/
 
